@@ -41,7 +41,8 @@ def act_shape(ins, act):
     if d == 'nb':
         return ' '.join(sorted(set(['imm' for o in ops if o['k'] == 'imm' and not o['sym']] + ['disp' for m in mems if any(m['d'])])))
     if d == 'syn':
-        return GROUP.get(ins['mn'], ins['mn']) + ' ' + ','.join(o['k'] for o in ops)
+        segs = sorted(set(m['seg'] for m in mems if m['seg']))
+        return GROUP.get(ins['mn'], ins['mn']) + ' ' + ','.join(o['k'] for o in ops) + ((' seg:' + '+'.join(segs)) if segs else '')
     return ','.join(o['k'] for o in ops)
 
 
